@@ -15,19 +15,29 @@ EXTENDS Naturals, Sequences, FiniteSets, TLC, Json, IOUtils
 Traces == ndJsonDeserialize(IOEnv.TRACE)
 VARIABLE l
 
-IsBad(k) == k \in {"bad", "badslow"}
+IsBad(k) == k \in {"bad", "badslow", "badfatal"}
+IsFatal(k) == k \in {"fatal", "badfatal"}
 Null == [k |-> "null"]
 Int(n) == [k |-> "int", v |-> ToString(n)]
 ExpectedData(f, id, kind) ==
-  [k |-> "obj", entries |-> <<[key |-> f, val |-> [k |-> "obj", entries |->
-      <<[key |-> "id", val |-> Int(id)], [key |-> "bad", val |-> IF IsBad(kind) THEN Null ELSE Int(1)], [key |-> "slow", val |-> Int(7)]>>]]>>]
-RespField(r) == IF r.data.k = "obj" /\ Len(r.data.entries) = 1 THEN r.data.entries[1].key ELSE ""
+  IF IsFatal(kind) THEN Null          \* the non-null child failed: the event has no data
+  ELSE [k |-> "obj", entries |-> <<[key |-> f, val |-> [k |-> "obj", entries |->
+      <<[key |-> "id", val |-> Int(id)], [key |-> "bad", val |-> IF IsBad(kind) THEN Null ELSE Int(1)], [key |-> "slow", val |-> Int(7)],
+        [key |-> "boom", val |-> Int(9)]>>]]>>]
+\* the root field a response belongs to: from its data, or (no data) from the path of its `boom` error
+BoomField(r) == IF \E i \in 1..Len(r.errors) : Len(r.errors[i].path) = 2 /\ r.errors[i].path[2] = "boom"
+                THEN r.errors[CHOOSE i \in 1..Len(r.errors) : Len(r.errors[i].path) = 2 /\ r.errors[i].path[2] = "boom"].path[1] ELSE ""
+RespField(r) == IF r.data.k = "obj" /\ Len(r.data.entries) = 1 THEN r.data.entries[1].key ELSE BoomField(r)
 ErrPaths(r) == [i \in 1..Len(r.errors) |-> r.errors[i].path]
 
 \* s: arrived kinds per field, responses seen per field, verdict state, pending = error paths expected but not yet reported (bag as seq)
-MInit == [arr |-> [f \in {"s1", "s2"} |-> <<>>], seen |-> [f \in {"s1", "s2"} |-> 0], bad |-> 0, moved |-> FALSE, owed |-> <<>>]
+MInit == [arr |-> [f \in {"s1", "s2"} |-> <<>>], seen |-> [f \in {"s1", "s2"} |-> 0], bad |-> 0, moved |-> FALSE, owed |-> <<>>,
+          fatalAt |-> [f \in {"s1", "s2"} |-> 0]]
+\* owed entries are [f, w, n] (root field, failing child, event number); an observed error only shows the path <<f, w>>
+\* and is matched with the oldest owed entry of that path
+Same(o, x) == Len(x) = 2 /\ o.f = x[1] /\ o.w = x[2]
 RECURSIVE RemoveOne(_, _)
-RemoveOne(s, x) == IF s = <<>> THEN <<>> ELSE IF Head(s) = x THEN Tail(s) ELSE <<Head(s)>> \o RemoveOne(Tail(s), x)
+RemoveOne(s, x) == IF s = <<>> THEN <<>> ELSE IF Same(Head(s), x) THEN Tail(s) ELSE <<Head(s)>> \o RemoveOne(Tail(s), x)
 RECURSIVE RemoveAll(_, _)
 RemoveAll(s, xs) == IF xs = <<>> THEN s ELSE RemoveAll(RemoveOne(s, Head(xs)), Tail(xs))
 SubBag(xs, s) == Len(RemoveAll(s, xs)) = Len(s) - Len(xs)
@@ -35,8 +45,11 @@ SubBag(xs, s) == Len(RemoveAll(s, xs)) = Len(s) - Len(xs)
 \* owed: errors of failing events that have arrived and have not been reported yet (a bag)
 MStep(s, e, k) ==
   IF s.bad # 0 THEN s
-  ELSE IF e.ev = "arrive" THEN [s EXCEPT !.arr[e.f] = Append(@, e.kind),
-                                         !.owed = IF IsBad(e.kind) THEN Append(s.owed, <<e.f, "bad">>) ELSE s.owed]
+  ELSE IF e.ev = "arrive" THEN
+         [s EXCEPT !.arr[e.f] = Append(@, e.kind),
+                   !.owed = s.owed \o (IF IsBad(e.kind) THEN <<[f |-> e.f, w |-> "bad", n |-> Len(s.arr[e.f]) + 1]>> ELSE <<>>)
+                                   \o (IF IsFatal(e.kind) THEN <<[f |-> e.f, w |-> "boom", n |-> Len(s.arr[e.f]) + 1]>> ELSE <<>>),
+                   !.fatalAt[e.f] = IF s.fatalAt[e.f] = 0 /\ IsFatal(e.kind) THEN Len(s.arr[e.f]) + 1 ELSE s.fatalAt[e.f]]
   ELSE IF e.ev \in {"open", "end"} THEN s
   ELSE IF e.ev = "single" THEN (IF e.id = 1 THEN s ELSE [s EXCEPT !.bad = k])
   ELSE \* resp
@@ -45,22 +58,33 @@ MStep(s, e, k) ==
     ELSE LET n == s.seen[f] + 1 IN
          IF n > Len(s.arr[f]) THEN [s EXCEPT !.bad = k]
          ELSE LET kind == s.arr[f][n]
-                  own == IF IsBad(kind) THEN <<<<f, "bad">>>> ELSE <<>>
+                  own == (IF IsBad(kind) THEN <<<<f, "bad">>>> ELSE <<>>) \o (IF IsFatal(kind) THEN <<<<f, "boom">>>> ELSE <<>>)
                   got == ErrPaths(e.resp)
               IN IF e.resp.data # ExpectedData(f, n, kind) THEN [s EXCEPT !.bad = k]
                  ELSE IF ~(\A i \in 1..Len(e.resp.errors) : Len(e.resp.errors[i].locs) = 1) THEN [s EXCEPT !.bad = k]
                  ELSE IF ~SubBag(got, s.owed) THEN [s EXCEPT !.bad = k]          \* an error nobody raised (or raised twice)
-                 ELSE [s EXCEPT !.seen[f] = n, !.owed = RemoveAll(s.owed, got), !.moved = (s.moved \/ got # own)]
+                 ELSE LET rest == RemoveAll(s.owed, got) IN
+                      \* the shared error list can hand an event's errors to a response that finishes *earlier*; when the
+                      \* event's own response is out, nothing of it (or of earlier events of its field) may still be owed
+                      IF \E i \in 1..Len(rest) : rest[i].f = f /\ rest[i].n <= n THEN [s EXCEPT !.bad = k]
+                      ELSE [s EXCEPT !.seen[f] = n, !.owed = rest,
+                                     !.moved = (s.moved \/ Len(got) # Len(own) \/ \E i \in 1..Len(got) : got[i][1] # f)]
 RECURSIVE MRun(_, _, _)
 MRun(s, evs, k) == IF k > Len(evs) THEN s ELSE MRun(MStep(s, evs[k], k), evs, k + 1)
 Final(t) == MRun(MInit, t.events, 1)
-AllAnswered(s) == \A f \in {"s1", "s2"} : s.seen[f] = Len(s.arr[f])
+\* a root field whose event failed as a whole may end its stream (dynamic schemas do): events after it may stay unanswered
+AllAnswered(s) == \A f \in {"s1", "s2"} : s.seen[f] = Len(s.arr[f]) \/ (s.fatalAt[f] > 0 /\ s.seen[f] >= s.fatalAt[f])
+RECURSIVE OwedBy(_, _, _, _)
+OwedBy(f, kinds, i, acc) == IF i > Len(kinds) THEN acc
+                            ELSE OwedBy(f, kinds, i + 1, acc + (IF IsBad(kinds[i]) THEN 1 ELSE 0) + (IF IsFatal(kinds[i]) THEN 1 ELSE 0))
+\* at the end only errors of unanswered events (after a whole-event failure ended a stream) may still be owed
+NothingLost(s) == \A i \in 1..Len(s.owed) : s.owed[i].n > s.seen[s.owed[i].f]
 Verdict(t) ==
   IF t.problem # "" THEN "violation:problem"
   ELSE LET s == Final(t) IN
        IF s.bad # 0 THEN "violation:response"
        ELSE IF ~AllAnswered(s) THEN "violation:missing-response"
-       ELSE IF s.owed # <<>> THEN "violation:error-lost"
+       ELSE IF ~NothingLost(s) THEN "violation:error-lost"
        ELSE IF s.moved THEN "known:DevSharedErrors"
        ELSE "ok"
 BadAt(t) == Final(t).bad
